@@ -25,13 +25,34 @@ PipeChains ==
         <<<<"app", "f", A("a")>>, "|>", A("g")>>, <<<<"paren", <<A("a"), "|>", A("f")>>>>, "+", A("b")>>}
   \cup {<<A("a"), op1, A("b"), op2, A("c"), "|>", A("f")>> : op1 \in NonPipeOps, op2 \in NonPipeOps}
 
+\* 4. terms that extend as far as possible, as the last operand: a one-line if (chain in the else branch, the then branch, the
+\*    condition; nested in an else branch; parenthesised in the middle) and a lambda as a pipeline stage
+If3(c, t, e) == <<"ifx", c, t, e>>
+One(x) == <<A(x)>>
+Swallow ==
+       {<<A("a"), op1, If3(One("p"), One("b"), <<A("d"), op2, A("e")>>)>> : op1 \in NonPipeOps, op2 \in NonPipeOps}
+  \cup {<<A("a"), op1, If3(One("p"), One("b"), <<A("d"), "|>", A("g")>>)>> : op1 \in NonPipeOps}
+  \cup {<<A("a"), op1, If3(One("p"), <<A("b"), op2, A("c")>>, One("d"))>> : op1 \in NonPipeOps, op2 \in NonPipeOps}
+  \cup {<<If3(<<A("a"), op2, A("b")>>, One("c"), One("d"))>> : op2 \in NonPipeOps}
+  \cup {<<A("e"), op1, If3(<<A("a"), op2, A("b")>>, One("c"), One("d"))>> : op1 \in NonPipeOps, op2 \in NonPipeOps}
+  \cup {<<If3(One("p"), One("b"), <<If3(One("q"), One("c"), <<A("d"), op2, A("e")>>)>>)>> : op2 \in NonPipeOps}
+  \cup {<<<<"paren", <<If3(One("p"), One("b"), One("d"))>>>>, op1, A("e")>> : op1 \in NonPipeOps}
+  \cup {<<A("a"), op1, <<"paren", <<If3(One("p"), One("b"), One("d"))>>>>, op2, A("e")>> : op1 \in NonPipeOps, op2 \in NonPipeOps}
+  \cup {<<A("a"), op1, A("b"), "|>", <<"lam", "y", <<A("y"), op2, A("c")>>>>>> : op1 \in NonPipeOps, op2 \in NonPipeOps}
+  \cup {<<A("a"), "|>", <<"lam", "y", <<A("y"), op2, A("c"), "|>", A("g")>>>>>> : op2 \in NonPipeOps}
+  \cup {<<A("a"), "|>", <<"paren", <<<<"lam", "y", <<A("y"), op2, A("c")>>>>>>>>, "|>", A("g")>> : op2 \in NonPipeOps}
+  \cup {<<<<"not", A("p")>>, op1, If3(One("q"), One("b"), <<<<"not", A("r")>>, op2, A("e")>>)>> : op1 \in {"&&", "||"}, op2 \in {"&&", "||", "="}}
+
 Row(c, kind) == [toks |-> c, tree |-> Declarative(c), mtree |-> Machine(c), kind |-> kind]
 Rows ==      {Row(c, "plain") : c \in Plain}
         \cup {Row(c, "operand") : c \in WithOperands}
         \cup {Row(c, "pipe") : c \in PipeChains}
+        \cup {Row(c, "swallow") : c \in Swallow}
 
 \* R1: the parser's loop computes the grouping of the published table, on every enumerated chain
 ASSUME \A r \in Rows : r.tree = r.mtree
+\* ... and fc's term parser reads the token text of every chain as that tree (the minimal parentheses of the text are right)
+ASSUME \A r \in Rows : TextParse(r.toks) = r.mtree
 ASSUME ndJsonSerialize(OutFile, SetToSeq(Rows))
 ASSUME PrintT(<<"CASES", Cardinality(Rows)>>)
 VARIABLE x
